@@ -261,6 +261,9 @@ func (s *clientSpec) build(d *dlog) *ssh.ClientConfig {
 			var l []ssh.Signer
 			for _, sg := range m.signers {
 				l = append(l, sg.signer)
+				if sg.kind == kindFailing {
+					sg.onSignError = func() { d.add(event{Kind: "APP", App: "sign-error"}) }
+				}
 			}
 			if m.viaCallback || m.signersErr {
 				a = ssh.PublicKeysCallback(func() ([]ssh.Signer, error) {
@@ -752,6 +755,13 @@ func (s *server) serve() {
 			if m.Type == cauth.MsgGlobalRequest && m.WantReply {
 				s.send(event{SType: "reqfailure"}, []byte{cauth.MsgRequestFailure})
 			}
+			if m.Type >= 50 && m.Type <= 79 {
+				// RFC 4252 §5.3 says to ignore this silently; the monitor has the packet
+				// in its log already, and hanging up keeps a wrong client from waiting
+				// forever for an answer
+				s.send(event{SType: "disconnect"}, cauth.Disconnect(2, "authentication request after success"))
+				s.stop = true
+			}
 			continue
 		}
 		switch m.Type {
@@ -844,7 +854,7 @@ func runScripted(spec *clientSpec, pol *policy, r *rand.Rand, d *dlog) (finished
 		srv.serve()
 	}()
 	cfg := spec.build(d)
-	done, pv, pstack, dmp := mon.RunTimed(60*time.Second, func() {
+	done, pv, pstack, dmp := mon.RunTimed(120*time.Second, func() {
 		conn, _, _, err := ssh.NewClientConn(cconn, "c34.example:22", cfg)
 		d.mu.Lock()
 		d.clientErr, d.clientOK = err, err == nil
